@@ -803,9 +803,19 @@ def explore(arg):
                         env.rc.cookies_restore(env.cookies)
                         for n2 in h:
                             apply(env, n2, table[n2], core.Acc(), check_all=False)
-                        if canon(env) != key:
+                        R2 = rows(env)
+                        if canon(env, R2) != key:
+                            diff = []
+                            for t in sorted(set(post) | set(R2)):
+                                a, b = post.get(t, {}), R2.get(t, {})
+                                for k in sorted(set(a) | set(b), key=repr):
+                                    if a.get(k) != b.get(k):
+                                        da, db_ = a.get(k) or {}, b.get(k) or {}
+                                        diff.append((t, k, {c: (da.get(c), db_.get(c)) for c in set(da) | set(db_)
+                                                            if da.get(c) != db_.get(c)}))
                             raise core.HarnessError(f'C17: replaying {list(h)} from the initial store differs from the '
-                                                    f'snapshot path')
+                                                    f'snapshot path: rows {diff[:6]!r}; blob listing now '
+                                                    f'{sorted(mgmt.blob_listing(env.w).items())!r}')
                         acc.count('restart_checks')
                 if changed:
                     acc.nontriv((h,))
